@@ -63,8 +63,20 @@ func (e *Expr) Tokens(full bool) []string {
 	return out
 }
 
+// atomsToo makes the fully parenthesised rendering wrap atoms (literals, names, variables) as well.
+var atomsToo bool
+
+// TokensAtoms is Tokens(true) with every atom in an operand position parenthesised too: `a[(1)]`, `(1) + (2)`.
+func (e *Expr) TokensAtoms() []string {
+	atomsToo = true
+	defer func() { atomsToo = false }()
+	var out []string
+	e.render(&out, true)
+	return out
+}
+
 func (e *Expr) child(out *[]string, c *Expr, full bool, need bool) {
-	if (full && c.Level() > 0) || need {
+	if (full && (c.Level() > 0 || atomsToo)) || need {
 		*out = append(*out, "(")
 		c.render(out, full)
 		*out = append(*out, ")")
@@ -95,7 +107,7 @@ func (e *Expr) render(out *[]string, full bool) {
 				*out = append(*out, ",")
 			}
 			// arguments are full expressions: never need parentheses
-			if full && a.Level() > 0 {
+			if full && (a.Level() > 0 || atomsToo) {
 				*out = append(*out, "(")
 				a.render(out, full)
 				*out = append(*out, ")")
@@ -108,7 +120,13 @@ func (e *Expr) render(out *[]string, full bool) {
 		c := e.Kids[0]
 		e.child(out, c, full, c.Level() > 2)
 		*out = append(*out, "[")
-		e.Kids[1].render(out, full)
+		if full && atomsToo && e.Kids[1].Level() == 0 {
+			*out = append(*out, "(")
+			e.Kids[1].render(out, full)
+			*out = append(*out, ")")
+		} else {
+			e.Kids[1].render(out, full)
+		}
 		*out = append(*out, "]")
 	case "unary":
 		*out = append(*out, e.Text)
